@@ -60,6 +60,9 @@ def make_handler_class(desper, env, name, events, shared=False):
     cls = type('H_' + name, (), ns)
     plain = [e for e in events if METHOD_OF[e] == e]
     renamed = {e: METHOD_OF[e] for e in events if METHOD_OF[e] != e}
+    if not events:      # a handler that maps no event declares an EMPTY mapping itself
+        cls.__events__ = {}
+        return cls
     renamed['only_' + name] = 'cb_only'
     cls = desper.event_handler(*plain, **renamed)(cls)
     return cls
@@ -101,7 +104,7 @@ class DispatcherAdapter:
         for h in hs:
             if shared:
                 o = scls()
-                o.__events__ = dict({e: METHOD_OF[e] for e in sorted(init['subs'][h])}, **{'only_' + h: 'cb_only'})
+                o.__events__ = dict({e: METHOD_OF[e] for e in sorted(init['subs'][h])}, **({'only_' + h: 'cb_only'} if init['subs'][h] else {}))
             else:
                 cls = make_handler_class(self.desper, env, h, sorted(init['subs'][h]))
                 o = cls()
